@@ -52,8 +52,11 @@ def compute_signature(
                 domains.append(*ufl.domain.extract_domains(coeff))
             for arg in args:
                 domains.append(*ufl.domain.extract_domains(arg))
-            for gc in ufl.algorithms.analysis.extract_type(expr, ufl.classes.GeometricQuantity):
-                domains.append(*ufl.domain.extract_domains(gc))
+            # (extract_type returns a set: iterate the terminals in traversal order
+            # instead, so that the numbering does not depend on the hash seed)
+            for gc in ufl.corealg.traversal.traverse_unique_terminals(expr):
+                if isinstance(gc, ufl.classes.GeometricQuantity):
+                    domains.append(*ufl.domain.extract_domains(gc))
             for const in consts:
                 domains.append(*ufl.domain.extract_domains(const))
             domains = ufl.algorithms.analysis.unique_tuple(domains)
